@@ -148,6 +148,53 @@ NEEDS = {
     'C07-1': 'a schedule: a body fragment ending exactly on a chunk boundary inside a run - request dropped when the buffer runs dry',
     'C07-2': 'more than 4096 back-to-back chunks all missing: take(MAX - 1) in front of the adjacency take_while',
     'C07-3': 'an archive of another writer with a chunk stored larger than its source size: fetch size clamped to the source size',
+    # ---- fourth round (all 132 earlier ideas listed as taken; agents pointed at shared state, API contracts, option combinations,
+    #      partial failure, compatibility paths, sibling drift, logging side effects, conditions evaluated at the wrong time)
+    'C01-10': 'debug logging on (-v) and nothing left to fetch: a debug! argument indexes the empty fetch list',
+    'C01-11': '--http-timeout together with --http-header against a server that wants the header: request rebuilt without headers',
+    'C01-12': 'a stored chunk of >= 2 MiB after smaller ones (CLI writer): big chunks bypass a pending write batch',
+    'C02-10': 'equal-sized chunks of different content, one of them repeated and placed early (a seed changes the order): per-size counter with inconsistent units turns chunks down',
+    'C02-11': 'an existing output with mode 6xxx longer than the new source: block-device mask one octal digit short (set-uid + set-gid bits)',
+    'C02-12': 'an archive with stored checksums longer than its hash length and seeds supplying more than three quarters of the chunks: fetch list looked up by truncated keys',
+    'C03-10': '--seed-output where no chunk is moved and the chunk at offset 0 must be fetched: CloneOutput skips "redundant" seeks assuming position 0',
+    'C03-11': 'a prior output longer than the source: final resize only ever grows the file',
+    'C03-12': 'a chunk occurring more than 4096 times over non-zero prior content: add_chunk keeps at most 4096 offsets',
+    'C04-10': '--verify-header with a matching pin and a header corruption outside the stored checksum: pinned constructor skips the header hash',
+    'C04-11': 'a server that goes silent mid-transfer with --http-timeout: elapsed timeout turned into end of stream',
+    'C04-12': 'a corrupted payload of a chunk stored raw: shortcut builds the VerifiedChunk with the hashing-only constructor',
+    'C05-10': 'an I/O fault on the output synthesised by tokio (no OS error number): exit status taken from raw_os_error()',
+    'C05-11': 'a single feed pending for more than 2 s (slow medium): feed raced against a timer with select!, the loser is dropped half way',
+    'C05-12': 'a server sending a byte too many and a fetch list with a gap (interrupted in-place update): receive buffer no longer cleared',
+    'C06-10': 'two or more --seed files with a wanted chunk at the join: seeds chained into one chunker pass',
+    'C06-11': 'a block device output with --seed-output: file size probed on a try_clone() of the handle (shared offset)',
+    'C06-12': 'a run of more than 256 adjacent missing chunks: chunk count capped, request size not',
+    'C07-4': 'two read_chunks calls on one reader, the first stream dropped mid-run: receive buffer moved into the reader',
+    'C07-5': 'an archive of a writer that does not de-duplicate (repeated checksums): take(chunks.len()) after the descriptor filter',
+    'C07-6': 'a zero-sized stored chunk whose predecessor is not missing: buffer test gains request.is_some(), an invalid range is requested',
+    'C08-10': 'a gapped range list, a resumed fault in an earlier run and a fault in a later one: request re-used via restart(), retry budget not restored',
+    'C08-11': 'a mid-body cut with retries left: Range header set once in new() and appended again on resume',
+    'C08-12': '--http-retry-count without --http-timeout and a transfer fault: shared reader helper returns early before the retry wiring',
+    'C11-10': 'BuzHash with an explicit --rolling-window-size 64B: default detected by comparing with the generic default',
+    'C11-11': 'two or more --metadata-file options: read_to_end into a buffer that is never cleared',
+    'C11-12': 'a chunk occurring three or more times (library writer): HashMap::insert used as get-or-insert',
+    'C12-10': 'a pipe whose first write is 1 to 5 bytes: sniffed head put back as a full 6-byte array',
+    'C12-11': 'a run longer than 1 s and a tick landing during a temp-file write: chunk storing raced against a progress interval with select!',
+    'C12-12': 'more than 131072 distinct chunks and repeats afterwards: de-duplication table thinned with retain in HashMap order',
+    'C13-10': 'a smaller chunk moved after a bigger one by reading it back: bounce buffer only ever grows',
+    'C13-11': '--seed-output on an output ending like the source with a last chunk below the minimum size: left-over chunks filtered out of the scans',
+    'C13-12': 'a block device output with --seed-output: file_size() no longer rewinds',
+    'C14-10': 'a header with an enum value outside the known set (newer writer): prost getters default instead of try_from',
+    'C14-11': 'a block device less than one sector short of a source that is not a multiple of 512: size check in sectors, image side rounded down',
+    'C14-12': 'a remote archive, --http-retry-count >= 1 and an existing output without -f: failed attempt retried with seed_output = true',
+    'C15-10': 'a server that keeps redirecting within its origin: custom redirect policy without a hop limit',
+    'C15-11': 'a response whose Content-Range does not describe its body: leading surplus computed by subtraction, body split at it',
+    'C15-12': 'a descriptor whose source_size exceeds what its brotli data expands to: read loop ignores Ok(0)',
+    'C16-10': 'a panic (stdout closed): panic hook writes a crash report into $TMPDIR',
+    'C16-11': 'OUTPUT naming a directory that holds an extension-less archive, with -f: derived output path is the archive itself',
+    'C16-12': 'a server that ignores Range: whole archive downloaded into <output>.cba.download, left behind when the clone fails',
+    'C17-10': 'an archive with padding between chunks over HTTP and a body frame ending inside the padding: nearby runs merged, part of the gap lost',
+    'C17-11': 'an archive with a hash length below 64: HashSum == compares whole backing arrays when the lengths match',
+    'C17-12': 'an application_version that is not x.y.z (another writer, pre-release): version parsed with ? in a "newer version" notice',
 }
 WHY_MISSED = {
     'C03-2': 'not decided by design: correctness of the DFS reorder planner (graph algorithm over runtime data)',
@@ -175,6 +222,11 @@ WHY_MISSED = {
     'C02-8': 'reported under C14 / C16 (a second path opened for writing, a rename) - the structural fact; that two concurrent clones then share the side file is an interleaving of two processes, which no rule sees',
     'C11-9': 'no rule: iterator arithmetic (stride of a zip) in a new argument-pairing helper - value reasoning over positions in a list',
     'C15-9': 'reported under C06 / C07 / C08 (the request is no longer dropped behind the run counter); that the drain loop is bounded only by what the server sends is a liveness fact about a peer, no rule',
+    'C01-12': 'no rule: a new write-batching feature in the CLI writer whose bypass reorders the chunk data (two write sites for the temp file; value reasoning over batch state)',
+    'C07-6': 'no rule: an added guard that changes what happens for a zero-sized chunk with no request in flight (value reasoning; the structural rules see the same request construction)',
+    'C11-10': 'no rule: a default decided by comparing an option value with the generic default (value reasoning over command line defaults)',
+    'C16-11': 'no rule: the output path is derived from the archive name when OUTPUT is a directory - the open flags and the set of opened paths are unchanged, which file the path names is a runtime fact',
+    'C17-12': 'no rule: a new refusal based on the form of the version string (behavioural; the reader wiring rules only see that application_version is reported unaltered)',
     'C17-8': 'no rule: a reported figure (archive size in `bita info`) derived from the last descriptor; the clone itself stays exact',
 }
 
